@@ -32,6 +32,7 @@ func scenarioSegments() int {
 		nstreams = ev.Pick(300, 6000)
 	}
 	seq, msgsOK, segsWritten := 0, 0, 0
+	repeats := 0
 	// meanwhile, on connections of their own: a client gets an answer written to its connection,
 	// then sends its next two messages with a pause of 6.5 s in the middle of the first one's body
 	// (time that passes between two segments is no part of the framing)
@@ -98,6 +99,7 @@ func scenarioSegments() int {
 		n := 1 + g.R.Intn(8)
 		var msgs []*sip.Msg
 		var ids []string
+		expectN := map[string]int{}
 		var stream bytes.Buffer
 		long, look := 0, 0
 		for k := 0; k < n; k++ {
@@ -154,6 +156,14 @@ func scenarioSegments() int {
 			stream.Write(m.Bytes())
 			msgs = append(msgs, m)
 			ids = append(ids, id)
+			expectN[id] = 1
+			if g.R.Intn(6) == 0 && len(m.Bytes()) < 8000 {
+				// the same message a second time on the connection, byte for byte (a repeated ACK, an
+				// application-level retransmission): two messages for the framing
+				stream.Write(m.Bytes())
+				expectN[id] = 2
+				repeats++
+			}
 		}
 		raw := stream.Bytes()
 		// segmentation
@@ -251,20 +261,29 @@ func scenarioSegments() int {
 		// (large messages over TCP to a backend) may still be behind on a loaded machine:
 		// expected messages are awaited under the watchdog before they count as missing
 		for _, id := range ids {
-			w.Net.WaitCase(id, func(o []*wire.Obs) bool { return len(o) >= 1 }, w.BarrierWait)
+			need := expectN[id]
+			if need == 0 {
+				need = 1
+			}
+			w.Net.WaitCase(id, func(o []*wire.Obs) bool { return len(o) >= need }, w.BarrierWait)
 		}
 		sig := fmt.Sprintf("n%d|long%v|look%v|%s", vfMin(n, 4), long > 0, look > 0, kind)
 		bad := false
 		for k, id := range ids {
 			obs := w.Net.ForCase(id)
 			detail := map[string]any{"split": kind, "cuts": cuts, "stream_bytes": len(raw), "message_index": k, "messages_in_stream": n, "message_head": clip(string(msgs[k].Bytes()), 800)}
-			if len(obs) != 1 {
+			need := expectN[id]
+			if need == 0 {
+				need = 1
+			}
+			if len(obs) != need {
 				detail["outputs"] = len(obs)
+				detail["times_in_the_stream"] = need
 				run.Violation(fmt.Sprintf("message %d of a segmented stream arrived %d times", k, len(obs)), detail)
 				bad = true
 				break
 			}
-			out := obs[0].Msg
+			out := obs[len(obs)-1].Msg
 			if out == nil || out.Start != msgs[k].Start {
 				run.Violation("message of a segmented stream arrived with another start line", detail)
 				bad = true
@@ -330,6 +349,7 @@ func scenarioSegments() int {
 	}
 	run.Observe("messages_extracted_across_a_long_pause", pausedOK)
 	run.Observe("streams", nstreams)
+	run.Observe("messages_that_occur_twice_in_their_stream", repeats)
 	run.Observe("segments_written", segsWritten)
 	run.Observe("messages_arrived_intact", msgsOK)
 	if msgsOK < nstreams {
